@@ -1,8 +1,8 @@
 package main
 
 import (
-	"go/types"
 	"fmt"
+	"go/types"
 	"strconv"
 	"strings"
 
@@ -195,7 +195,9 @@ func c18Decoders(c *Ctx) {
 	c.R.floor(rule, "decoder paths enumerated", total, 40)
 	// DecodeVarint32 table
 	if f := c.P.Func(pkgEnc, "DecodeVarint32"); c.mustFunc(rule, f, "DecodeVarint32") {
-		isV := func(t *Term) bool { return t.Op == "extract" && t.Sym == "0" && isMethodCall(t.Args[0], "DecodeVarint64") || t.Op == "extract" && t.Sym == "0" }
+		isV := func(t *Term) bool {
+			return t.Op == "extract" && t.Sym == "0" && isMethodCall(t.Args[0], "DecodeVarint64") || t.Op == "extract" && t.Sym == "0"
+		}
 		dom := mkDomain(scalarSpec{name: "v", n: 2, integer: true, point: constPoints("-2147483648", "2147483647"), match: isV})
 		paths, _ := exec(c, f, dom, 1)
 		for cls := 1; cls <= 5; cls++ {
